@@ -517,10 +517,11 @@ where
                 ((symbol >> (symbol_len - level - 1)).as_() & 1) == 1
             };
 
+            let target = rank_b.checked_add(result)?; // an occurrence index that large cannot exist
             result = if bit {
-                self.bvs[level].select1(rank_b + result)
+                self.bvs[level].select1(target)
             } else {
-                self.bvs[level].select0(rank_b + result)
+                self.bvs[level].select0(target)
             }? - b;
         }
 
